@@ -49,6 +49,12 @@ class UseWalrusIf(SimpleCodemod, NameResolutionMixin):
         self.assigns = {}
 
     def _build_named_expr(self, target, value, parens=True):
+        # `x = 1, 2` and `x = yield` are fine as statements, but the value of
+        # a walrus must be parenthesized: `x := (1, 2)`, `x := (yield)`
+        if isinstance(value, (cst.Tuple, cst.Yield)) and not value.lpar:
+            value = value.with_changes(
+                lpar=[cst.LeftParen()], rpar=[cst.RightParen()]
+            )
         return cst.NamedExpr(
             target=target,
             value=value,
@@ -147,6 +153,27 @@ class UseWalrusIf(SimpleCodemod, NameResolutionMixin):
             new_expression = (
                 named_expr.value if self._single_access(original_node) else named_expr
             )
+            if (
+                new_expression is named_expr.value
+                and not isinstance(updated_node.test, cst.Name)
+                and isinstance(
+                    new_expression,
+                    (
+                        cst.BooleanOperation,
+                        cst.Comparison,
+                        cst.IfExp,
+                        cst.Lambda,
+                        cst.UnaryOperation,
+                    ),
+                )
+                and not new_expression.lpar
+            ):
+                # the value moves into an operand position where it would
+                # bind differently: `x = a or b; if x is None` is not
+                # `if a or b is None`
+                new_expression = new_expression.with_changes(
+                    lpar=[cst.LeftParen()], rpar=[cst.RightParen()]
+                )
 
             match updated_node.test:
                 case cst.Name():
